@@ -53,6 +53,19 @@ type clientStream struct {
 	teardown func(bool)
 
 	rCh chan *goatorepo.Body
+
+	// singleResponse marks a stream whose peer answers with one message
+	// (client-streaming RPCs), see SetSingleResponse.
+	singleResponse bool
+}
+
+// SetSingleResponse tells the stream that its RPC has a single response
+// message. RecvMsg then reads on to the stream's status once it has that
+// message, as grpc-go does for such RPCs, so that the generated
+// CloseAndRecv reports a handler which failed after replying. Call it before
+// the stream is used.
+func (cs *clientStream) SetSingleResponse() {
+	cs.singleResponse = true
 }
 
 var _ grpc.ClientStream = (*clientStream)(nil)
@@ -326,6 +339,24 @@ func (cs *clientStream) RecvMsg(m interface{}) error {
 				Payload:  m,
 				Length:   len(body.GetData()),
 			})
+		}
+		if cs.singleResponse {
+			// The reply is not the end of the RPC: wait for how it ended.
+			for waiting := true; waiting; {
+				select {
+				case _, waiting = <-cs.rCh:
+					// closed when the stream ends; a further message is not ours to give
+				case <-cs.ctx.Done():
+					waiting = false
+				}
+			}
+			done, err := cs.readErrorIfDone()
+			if !done {
+				return toStatusError(cs.ctx.Err())
+			}
+			if err != io.EOF {
+				return err
+			}
 		}
 		return nil
 	}
